@@ -107,6 +107,19 @@ func registerRoaringStubs(e *Engine) {
 		c.t = Bin("bvxor", c.t, mask)
 		return nil
 	})
+	// serialisation of the model: one byte holding the bit-vector (the roaring wire
+	// format itself is the library's business, outside every claim)
+	e.reg(mt+"ToBytes", func(fr *frame, args []value) value {
+		return tuple{[]value{mkval(roaringOf(args[0]).t, types.Uint8)}, iface{}}
+	})
+	e.reg(mt+"FromUnsafeBytes", func(fr *frame, args []value) value {
+		b, ok := args[1].([]value)
+		if !ok || len(b) != roaringW/8 {
+			return tuple{int64(0), mkError("roaring model: unexpected serialised length", nil)}
+		}
+		roaringOf(args[0]).t = termOf(b[0])
+		return tuple{int64(1), iface{}}
+	})
 	// harness helpers (package zz_verifsym)
 	e.reg(e.symPkg+".BitmapFromBits", func(fr *frame, args []value) value { return newRoaring(termOf(args[0])) })
 	e.reg(e.symPkg+".BitmapBits", func(fr *frame, args []value) value {
